@@ -77,6 +77,9 @@ FIXED = [
     ("C17", ["ubsan:proc.c:left_shift"], "fix: undefined behaviour (signed shift) in proc_ioprio_set()", "ionice(2**18, 0) / negative class"),
     ("C17", ["ubsan:net.c:left_shift"], "fix: signed integer overflow when a NIC reports an unknown speed", "net_if_duplex_speed('eth0') on this sandbox"),
     ("C18", ["affinity_nonexistent_cpus_not_ValueError:OverflowError"], "fix: cpu_affinity() raised OverflowError", "cpu_affinity([2**70])"),
+    ("C17", ["net_if_exception:UnicodeDecodeError:non_ascii_interface_name", "net_if_exception:UnicodeEncodeError:non_ascii_interface_name"],
+     "fix: net_if_addrs() and net_if_stats() failed for the whole table when a NIC name is not UTF-8",
+     "ip link add $'caf\\xe9' type veth ... -> net_if_addrs() UnicodeDecodeError, net_if_stats() UnicodeEncodeError, every interface lost"),
     ("C19", ["thermal_trip_point_rescaled"], "fix: sensors_temperatures() divided thermal zone thresholds", "zone with >= 2 trip points"),
     ("C19", ["battery_exception:FileNotFoundError:no_power_supply_class_dir"], "fix: sensors_battery() raised FileNotFoundError", "no /sys/class/power_supply"),
     ("C19", ["cpu_freq_current_off_by_1khz:cpuinfo_mhz_float_truncation"], "fix: cpu_freq() truncated the /proc/cpuinfo frequency", "cpu MHz 1034.091"),
